@@ -35,8 +35,14 @@ def floors(tier):
 def run_spec(ctx, mons, spec):
     case = {"spec": spec}
     stratum = spec["options"].get("direction", "right")
+    import datetime as _dt
+
+    today = _dt.date.today()
     rs = EC.export_one(spec, "svg", mons)
     rt = EC.export_one(spec, "tikz", mons)
+    if EC.uses_time_of_day_inputs(spec) and _dt.date.today() != today:
+        ctx.judge(stratum, INCONCLUSIVE, case, reason="civil date changed between the two exports (datetime.time inputs are combined with today's date)")
+        return
     if rs["exc"] is not None or rt["exc"] is not None:
         if (rs["exc"] is None) != (rt["exc"] is None):
             ctx.judge(stratum, VIOLATED, case, finding={"rule": "one back-end raises, the other does not", "svg": rs["exc"], "tikz": rt["exc"]}, key="one-backend-raises")
